@@ -267,9 +267,6 @@ def gen_tok(rng, defs, rel_kind):
     q = rng.weighted([('plain', 7 if plain_ok else 0), ('soft', 2), ('hard', 1)])
     if q == 'hard':
         frags = [('c', s)]
-    if q == 'soft' and not frags and rel_kind == 'none':
-        q = 'hard'  # `""` without relativity raises IndexError in the parser (reported in notes/C12.md; not a C12 matter)
-        frags = [('c', '')]
     return (q, frags)
 
 
@@ -294,6 +291,43 @@ def gen_arg(rng, defs, in_def):
         rel = ('unknown', rng.choice(['-rel-foo', '-rel-homex', '--rel-act', '-REL-ACT']))
     tok = None if rng.chance(0.015 if in_def else 0.04) else gen_tok(rng, defs, rel[0])
     return (rel, tok)
+
+
+def ref_form(rng, n):
+    """an argument built on path symbol n"""
+    k = rng.below(3)
+    if k == 0:
+        c = gen_const(rng, allow_abs=False, min_parts=1)
+        if not c or c[0] == '-' or c.startswith('/'):
+            c = 'a'
+        return (('sym', n), ('plain', [('c', c)]))
+    if k == 1:
+        return (('none',), ('plain', [('s', n), ('c', '/' + gen_const(rng, allow_abs=False))]))
+    return (('none',), ('plain', [('s', n)]))
+
+
+def path_symbol_of_arg(defs, arg):
+    rel, tok = arg
+    tbl = _table(defs)
+    n = rel[1] if rel[0] == 'sym' else (tok[1][0][1] if (rel[0] == 'none' and tok is not None and tok[1] and tok[1][0][0] == 's') else None)
+    return n if n is not None and tbl.get(n, (0, ''))[1] == 'path' else None
+
+
+def gen_pair(rng, defs):
+    """(source argument, destination argument) of one instruction; 60%: both go through the same path symbol"""
+    paths = syms_of(defs, 'path')
+    while True:
+        src = gen_arg(rng, defs, False)
+        if src[1] is not None:
+            break
+    mode = rng.below(100)
+    if paths and mode < 30:
+        n = paths[-1] if rng.chance(0.6) else rng.choice(paths)
+        return ref_form(rng, n), ref_form(rng, n)
+    n = path_symbol_of_arg(defs, src)
+    if n is not None and mode < 75:
+        return src, ref_form(rng, n)
+    return src, gen_arg(rng, defs, False)
 
 
 def gen_defs(rng):
@@ -639,7 +673,8 @@ def pcase_term(im, defs, conf, creates, arg, dfail, a):
 
 
 def describe(defs, label, arg, dfail, a):
-    return {'definitions': ['def ' + render_def(d) for d in defs], 'argument_of': label, 'argument': render_arg(arg),
+    return {'level': 'parser', 'input': {'defs': defs, 'label': label, 'arg': arg},
+            'definitions': ['def ' + render_def(d) for d in defs], 'argument_of': label, 'argument': render_arg(arg),
             'observed': {'definitions': 'all accepted' if dfail is None else 'definition #%d: %s' % dfail, 'argument': list(a)}}
 
 
@@ -658,7 +693,7 @@ CORPUS = [
     ([('S1', 'string', ('plain', [('c', '/abs')])), ('P1', 'path', (('opt', 'RAct'), ('plain', [('s', 'S1')])))],
      'file:destination', (('none',), ('plain', [('s', 'P1'), ('c', '/x')]))),
     ([], 'file:destination', (('sym', 'U99'), ('plain', [('c', '/abs/x')]))),
-    ([], 'file:destination', (('none',), ('soft', []))),  # `file "" = ..`: IndexError in the parser (not a C12 matter)
+    ([], 'file:destination', (('none',), ('soft', []))),  # `file "" = ..`: the empty path (was an IndexError before commit 0d7a12a)
     ([], 'copy:destination', (('none',), None)),
     ([], 'copy:destination', (('opt', 'RTmp'), None)),
     ([('P1', 'path', (('here',), ('plain', [('c', 'x')])))], 'contents:actual', (('none',), ('plain', [('s', 'P1'), ('c', '/y')]))),
@@ -668,7 +703,7 @@ CORPUS = [
 
 def run_pcases(ctx, res, im):
     rng = ctx.rng
-    n = size_of(ctx, 2600, 30000)
+    n = size_of(ctx, 2600, 24000)
     conf_by_label = {c[0]: c for c in im.confs}
     usable = [c for c in im.confs if c[0] != 'def:path']
     cases = []
@@ -677,7 +712,8 @@ def run_pcases(ctx, res, im):
             defs, label, arg = CORPUS[j]
             _, creates, obj, conf = conf_by_label[label]
         else:
-            defs = gen_defs(rng)
+            seeds = getattr(ctx, 'c12_seed_defs', None)
+            defs = rng.choice(seeds) if (seeds and rng.chance(0.7)) else gen_defs(rng)
             label, creates, obj, conf = rng.choice(usable) if rng.chance(0.45) else rng.choice(usable[:3])
             arg = gen_arg(rng, defs, False)
         for d in defs:
@@ -758,7 +794,8 @@ def run_icases(ctx, res, im, pcases):
 
     def info_of(c):
         defs, label, creates, conf, arg, dfail, o, ph, line = c
-        return {'phase': ph, 'definitions': ['def ' + render_def(d) for d in defs], 'instruction': line, 'argument_of': label,
+        return {'level': 'instruction', 'input': {'defs': defs, 'label': label, 'arg': arg},
+                'phase': ph, 'definitions': ['def ' + render_def(d) for d in defs], 'instruction': line, 'argument_of': label,
                 'observed': {'definitions': 'all accepted' if dfail is None else 'definition #%d: %s' % dfail, 'instruction': o}}
     for i in pb:
         defs, label, creates, conf, arg = cases[i][:5]
@@ -775,6 +812,92 @@ def run_icases(ctx, res, im, pcases):
     res.evaluations += len(cases)
     if cases:
         res.samples.append(info_of(cases[min(len(cases) - 1, 40)]))
+
+
+I2_FORMS = [
+    # (instruction, label of the source role (+phase), label of the destination role, destination reported first, template)
+    ('copy', 'copy:source:', 'copy:destination', False, '%(src)s %(dst)s'),
+    ('file', 'contents-of:source:', 'file:destination', True, '%(dst)s = -contents-of %(src)s'),
+]
+
+
+def run_i2cases(ctx, res, im, seed_defs=None):
+    """instructions with two path arguments (a source and a destination), often through the same symbol, in every phase"""
+    rng = ctx.rng
+    n = size_of(ctx, 900, 9000)
+    conf_by_label = {c[0]: c for c in im.confs}
+    cases = []
+    old = os.getcwd()
+    try:
+        os.chdir(im.cwd0)
+        for j in range(len(I2_CORPUS) + n):
+            if j < len(I2_CORPUS):
+                defs, src, dst = I2_CORPUS[j]
+            else:
+                defs = rng.choice(seed_defs) if (seed_defs and rng.chance(0.7)) else gen_defs(rng)
+                src, dst = gen_pair(rng, defs)
+            for a in (src, dst):
+                if a[1] is not None:
+                    check_rendering(a[1])
+            table, dfail = im.run_defs(defs)
+            name, slab, dlab, dst_first, tmpl = I2_FORMS[j % 2] if j < len(I2_CORPUS) else rng.choice(I2_FORMS)
+            for ph, attr, after in PHASES:
+                sl = slab + ('after-act' if after else 'before-act')
+                text = tmpl % {'src': render_arg(src), 'dst': render_arg(dst)}
+                o = run_instr(im, attr, name, text, table, dfail is None)
+                cases.append((defs, sl, dlab, src, dst, dst_first, dfail, o, ph, name + ' ' + text))
+                res.count('i2case %s in %s' % (name, ph))
+                res.count('i2case outcome ' + o)
+                if path_symbol_of_arg(defs, src) is not None and path_symbol_of_arg(defs, src) == path_symbol_of_arg(defs, dst):
+                    res.count('i2case source and destination through the same path symbol')
+                res.nontrivial.add(('i2', repr(defs), ph, name, repr(src), repr(dst)))
+    finally:
+        os.chdir(old)
+    terms = ['(I2Case %s %s %s %s %s %s %s %s %s)' % (
+        ctext(HERE), clist([c_def(d) for d in defs]) if defs else '(@nil (sym * sdef))', c_conf(conf_by_label[sl][3]), c_arg(src),
+        c_conf(conf_by_label[dlab][3]), c_arg(dst), cbool(dst_first),
+        'None' if dfail is None else '(Some (%s, %s))' % (cnat(dfail[0]), dfail[1]), o)
+        for defs, sl, dlab, src, dst, dst_first, dfail, o, ph, line in cases]
+    cb, pb, errs = common.run_shards('C12', ['Model.Paths', 'Spec.C12'], 'check_i2case', terms, tag='i2cases', shard_size=400)
+    res.errors += errs
+
+    def info_of(c):
+        defs, sl, dlab, src, dst, dst_first, dfail, o, ph, line = c
+        return {'level': 'instruction2', 'input': {'defs': defs, 'label': dlab, 'arg': dst, 'src_label': sl, 'src': src},
+                'phase': ph, 'definitions': ['def ' + render_def(d) for d in defs], 'instruction': line,
+                'observed': {'definitions': 'all accepted' if dfail is None else 'definition #%d: %s' % dfail, 'instruction': o}}
+    for i in pb:
+        defs, sl, dlab, src, dst = cases[i][:5]
+        known = kf_applies(defs, dst, True) or kf_applies(defs, src, False)
+        info = info_of(cases[i])
+        info['known_finding_predicate_holds'] = known
+        res.prop_failures.append(Failure(
+            'property', info, 'the instruction is accepted (parse + symbol validation) although the documented relativity of its '
+            'destination is not act, tmp or cd, or it accepts a relativity option outside the accepted set', finding=KF if known else None))
+    for i in cb:
+        res.disagreements.append(Failure('correspondence', info_of(cases[i]),
+                                         'model (parse_path of both arguments + validation of their references in the order the '
+                                         'instruction reports them) differs from the instruction parser + symbol validation'))
+    res.evaluations += len(cases)
+    if cases:
+        res.samples.append(info_of(cases[min(len(cases) - 1, 4 * len(I2_CORPUS) + 5)]))
+
+
+_P = lambda rel, s: ('P1', 'path', (rel, ('plain', [('c', s)])))
+I2_CORPUS = [
+    # one symbol as source and as destination: the destination restriction must still be evaluated
+    ([_P(('opt', 'RHdsCase'), 'sub')], (('none',), ('plain', [('s', 'P1'), ('c', '/data.txt')])),
+     (('none',), ('plain', [('s', 'P1'), ('c', '/copied.txt')]))),
+    ([_P(('opt', 'RHdsCase'), 'sub')], (('sym', 'P1'), ('plain', [('c', 'data.txt')])), (('sym', 'P1'), ('plain', [('c', 'copied.txt')]))),
+    ([_P(('here',), 'home/sub')], (('none',), ('plain', [('s', 'P1'), ('c', '/data.txt')])),
+     (('sym', 'P1'), ('plain', [('c', 'copied.txt')]))),
+    ([_P(('opt', 'RHdsAct'), '.'), ('P2', 'path', (('sym', 'P1'), ('plain', [('c', 'a')]))),
+      ('P3', 'path', (('none',), ('plain', [('s', 'P2'), ('c', '/b')])))],
+     (('sym', 'P3'), ('plain', [('c', 'data.txt')])), (('none',), ('plain', [('s', 'P3'), ('c', '/copied.txt')]))),
+    ([_P(('opt', 'RAct'), 'sub')], (('none',), ('plain', [('s', 'P1'), ('c', '/data.txt')])),
+     (('none',), ('plain', [('s', 'P1'), ('c', '/copied.txt')]))),
+    ([_P(('opt', 'RTmp'), 'sub')], (('opt', 'RHdsCase'), ('plain', [('c', 'data.txt')])), (('sym', 'P1'), ('plain', [('c', 'copied.txt')]))),
+]
 
 
 # ---------------------------------------------------------------------------------------------
@@ -853,27 +976,39 @@ def stays_inside(root, defs, arg):
 
 def gen_ecase(rng, i, root):
     home, acthome, third = os.path.join(root, 'home'), os.path.join(root, 'acthome'), os.path.join(root, 'ABS')
-    kind = 'create' if rng.chance(0.7) else 'read'
+    kind = rng.weighted([('create', 50), ('read', 20), ('both', 30)])
     ph, attr, after = rng.choice(PHASES)
     _GEN['components'], _GEN['abs_prefixes'] = E_COMPONENTS, [home, acthome, third]
+    src = None
     try:
         while True:
             defs = gen_defs(rng)
-            arg = gen_arg(rng, defs, False)
-            if arg[0] == ('none',) and arg[1] is not None and arg[1][0] == 'soft' and not arg[1][1]:
-                continue
+            if kind == 'both':
+                src, arg = gen_pair(rng, defs)
+            else:
+                arg = gen_arg(rng, defs, False)
             if any(d[1] == 'path' and d[2][1] is None for d in defs):
                 continue  # a PATH-STRING missing at the end of a line is taken from the NEXT line of the file: outside the model
-            if count_dotdot(defs, arg) > (2 if kind == 'create' else 0):
+            if count_dotdot(defs, arg) + (count_dotdot([], src) if src else 0) > (2 if kind == 'create' else 0):
                 continue  # reading resolves ".." physically (a/.. needs a); creation is kept inside the scratch directory
-            if not stays_inside(root, defs, arg):
+            if not stays_inside(root, defs, arg) or (src is not None and not stays_inside(root, defs, src)):
                 continue
             break
     finally:
         _GEN['components'], _GEN['abs_prefixes'] = COMPONENTS, None
     cd = rng.chance(0.45)
     marker = 'MARK%d' % i
-    if kind == 'create':
+    src_label, dst_first = None, False
+    if kind == 'both':
+        instr = rng.choice(['copy', 'file'])
+        arg = with_final(arg, marker)
+        src = with_final(src, 'exit-code' if (after and rng.chance(0.1)) else 'src.txt')
+        label = instr + ':destination'
+        src_label = ('copy:source:' if instr == 'copy' else 'contents-of:source:') + ('after-act' if after else 'before-act')
+        dst_first = instr == 'file'
+        line = ('copy %(src)s %(dst)s' if instr == 'copy' else 'file %(dst)s = -contents-of %(src)s') % {
+            'src': render_arg(src), 'dst': render_arg(arg)}
+    elif kind == 'create':
         instr = rng.choice(['file', 'dir', 'copy'])
         arg = with_final(arg, marker)
         label = instr + ':destination'
@@ -901,16 +1036,18 @@ def gen_ecase(rng, i, root):
     else:
         lines += body
     return {'kind': kind, 'phase': ph, 'after': after, 'defs': defs, 'arg': arg, 'label': label, 'cd': cd, 'marker': marker,
+            'src': src, 'src_label': src_label, 'dst_first': dst_first,
             'text': '\n'.join(lines) + '\n', 'instruction': line}
 
 
 def run_ecases(ctx, res, im, scratch):
     rng = ctx.rng
-    n = size_of(ctx, 420, 5000)
+    n = size_of(ctx, 420, 4000)
     conf_by_label = {c[0]: c for c in im.confs}
     sbx = os.path.join(scratch, 'sandboxes')
     os.makedirs(sbx)
     mp = impl.main_program(sbx)
+    keep_in_scratch = set(os.listdir(scratch))
     cases = []
     for i in range(len(E_CORPUS) + n):
         root = os.path.join(scratch, 'e%d' % i)
@@ -925,7 +1062,7 @@ def run_ecases(ctx, res, im, scratch):
         _, pre = im.observe(ec['defs'], conf_by_label[ec['label']][2], ec['arg'])
         if pre[0] == 'AResolved':
             v = os.path.normpath(pre[3])
-            if not any((v + '/').startswith(b + '/') for b in ('/H', '/S', common.WORK, root)):
+            if not any((v + '/').startswith(b + '/') for b in ('/H', '/S', scratch)):
                 res.count('ecase skipped: path would leave the scratch directory')
                 shutil.rmtree(root, ignore_errors=True)
                 continue
@@ -939,12 +1076,11 @@ def run_ecases(ctx, res, im, scratch):
         verdict = VERDICTS.get(first, 'EOther') if pr.exception is None else 'EOther'
         assert sds is None or (os.path.isdir(sds) and os.path.dirname(sds) == sbx), pr.out
         found = []
-        for base in (root, sbx):
-            for dp, dn, fn in os.walk(base):
-                found += [os.path.join(dp, x) for x in dn + fn if x == ec['marker']]
+        for dp, dn, fn in os.walk(scratch):  # the case's directory, the sandboxes, and wherever a ".." may have led
+            found += [os.path.join(dp, x) for x in dn + fn if x == ec['marker']]
         found.sort()
         read = None
-        if ec['kind'] == 'read' and found:
+        if ec['kind'] in ('read', 'both') and found:
             content = open(found[0]).read() if os.path.isfile(found[0]) else None
             read = TAGS.get(content, 99)
         sds_m = sds or '/NO-SANDBOX'
@@ -955,7 +1091,7 @@ def run_ecases(ctx, res, im, scratch):
             files.append((os.path.join(sds_m, 'act', 'w', 'src.txt'), 5))
         if ec['after']:
             files.append((os.path.join(sds_m, 'result', 'exit-code'), 6))
-        ec.update(verdict=verdict, created=found if ec['kind'] == 'create' else [], read=read, home_changed=before != after,
+        ec.update(verdict=verdict, created=found if ec['kind'] in ('create', 'both') else [], read=read, home_changed=before != after,
                   sds=sds_m, cwd=cwd, files=files, home=home, acthome=acthome,
                   stderr=pr.err[:600].replace(root, '<ROOT>'), exception=repr(pr.exception) if pr.exception else None)
         cases.append(ec)
@@ -967,6 +1103,10 @@ def run_ecases(ctx, res, im, scratch):
             px = os.path.join(sbx, x)
             shutil.rmtree(px, ignore_errors=True) if os.path.isdir(px) else os.remove(px)
         shutil.rmtree(root, ignore_errors=True)
+        for x in os.listdir(scratch):  # strays next to the case directory
+            if x not in keep_in_scratch:
+                px = os.path.join(scratch, x)
+                shutil.rmtree(px, ignore_errors=True) if os.path.isdir(px) else os.remove(px)
 
     def term(ec):
         _, creates, _, conf = conf_by_label[ec['label']]
@@ -981,11 +1121,49 @@ def run_ecases(ctx, res, im, scratch):
 
     def info_of(ec):
         root = os.path.dirname(ec['home'])
-        return {'test_case_file': ec['text'].replace(root, '<ROOT>'), 'run': 'exactly --keep c.case (in <ROOT>/home; act-home = <ROOT>/acthome)',
+        return {'level': 'program', 'input': {'defs': ec['defs'], 'label': ec['label'], 'arg': ec['arg'], 'src': ec.get('src'),
+                                              'src_label': ec.get('src_label')},
+                'test_case_file': ec['text'].replace(root, '<ROOT>'), 'run': 'exactly --keep c.case (in <ROOT>/home; act-home = <ROOT>/acthome)',
                 'observed': {'verdict': ec['verdict'], 'stderr': ec['stderr'],
                              'created': [p.replace(root, '<ROOT>').replace(ec['sds'], '<SANDBOX>') for p in ec['created']],
                              'tag_of_contents_read': ec['read'], 'home_directories_changed': ec['home_changed'],
                              'exception': ec['exception']}}
+    def term2(ec):
+        env = '(Env (parse_pp %s) (parse_pp %s) (parse_pp %s) (parse_pp %s))' % (ctext(ec['home']), ctext(ec['acthome']),
+                                                                                 ctext(ec['sds']), ctext(ec['cwd']))
+        return '(E2Case %s %s %s %s %s %s %s %s %s %s %s %s %s)' % (
+            ctext(ec['home']), clist([c_def(d) for d in ec['defs']]) if ec['defs'] else '(@nil (sym * sdef))',
+            c_conf(conf_by_label[ec['src_label']][3]), c_arg(ec['src']), c_conf(conf_by_label[ec['label']][3]), c_arg(ec['arg']),
+            cbool(ec['dst_first']), env, clist(['(%s, %s)' % (ctext(p), cN(t)) for p, t in ec['files']]), ec['verdict'],
+            clist([ctext(p) for p in ec['created']]) if ec['created'] else '(@nil text)', copt(ec['read'], cN),
+            cbool(ec['home_changed']))
+    both = [ec for ec in cases if ec['kind'] == 'both']
+    cases = [ec for ec in cases if ec['kind'] != 'both']
+    terms2 = [term2(ec) for ec in both]
+    cb2, pb2, errs = common.run_shards('C12', ['Model.Paths', 'Spec.C12'], 'check_e2case', terms2, tag='e2cases', shard_size=200)
+    res.errors += errs
+    for i in pb2:
+        ec = both[i]
+        known = kf_applies(ec['defs'], ec['arg'], True) or kf_applies(ec['defs'], ec['src'], False)
+        info = info_of(ec)
+        info['known_finding_predicate_holds'] = known
+        res.prop_failures.append(Failure(
+            'property', info, 'a home directory changed, or a destination with a relativity other than act/tmp/cd was not rejected '
+            'before execution (syntax error / VALIDATION_ERROR), or the file was created / read somewhere else than documented',
+            finding=KF if known else None))
+    model_out = {}
+    if cb2:
+        outs, _ = common.coq_eval_terms('C12', ['Model.Paths', 'Spec.C12'], ['model_e2run %s' % terms2[i] for i in cb2[:6]],
+                                        tag='e2disagree')
+        model_out = dict(zip(cb2[:6], outs or []))
+    for i in cb2:
+        info = info_of(both[i])
+        info['model'] = decode_texts(model_out.get(i, '(not evaluated)')).replace(os.path.dirname(both[i]['home']), '<ROOT>')
+        res.disagreements.append(Failure('correspondence', info, 'model (verdict / created path / contents read) differs from the '
+                                                                 'real program'))
+    res.evaluations += len(both)
+    if both:
+        res.samples.append(info_of(both[min(len(both) - 1, 3)]))
     terms = [term(ec) for ec in cases]
     cb, pb, errs = common.run_shards('C12', ['Model.Paths', 'Spec.C12'], 'check_ecase', terms, tag='ecases', shard_size=200)
     res.errors += errs
@@ -1026,7 +1204,29 @@ def _e(kind, ph, after, defs, arg, label, cd, line_fmt):
         else:
             lines += ['[act]', '$ true', '[%s]' % ph] + body
         return {'kind': kind, 'phase': ph, 'after': after, 'defs': ds, 'arg': a, 'label': label, 'cd': cd, 'marker': 'MARK',
+                'src': None, 'src_label': None, 'dst_first': False,
                 'text': '\n'.join(lines) + '\n', 'instruction': body[-1]}
+    return mk
+
+
+def _e2(ph, after, defs, src, dst, instr, cd):
+    def mk(root):
+        home = os.path.join(root, 'home')
+        ds = [(d[0], d[1], _subst_root(d[2], home)) if len(d) > 2 else d for d in defs]
+        a, sa = _subst_root(dst, home), _subst_root(src, home)
+        line = ('copy %(src)s %(dst)s' if instr == 'copy' else 'file %(dst)s = -contents-of %(src)s') % {
+            'src': render_arg(sa), 'dst': render_arg(a)}
+        lines = ['[conf]', 'act-home = ../acthome', '[setup]', "file -rel-act src.txt = 'ACT'", "file -rel-tmp src.txt = 'TMP'"]
+        lines += ['def ' + render_def(d) for d in ds]
+        body = (['dir w', 'cd w', "file src.txt = 'CWD'"] if cd else []) + [line]
+        if ph == 'setup':
+            lines += body + ['[act]', '$ true']
+        else:
+            lines += ['[act]', '$ true', '[%s]' % ph] + body
+        return {'kind': 'both', 'phase': ph, 'after': after, 'defs': ds, 'arg': a, 'label': instr + ':destination', 'cd': cd,
+                'marker': 'MARK', 'src': sa, 'dst_first': instr == 'file',
+                'src_label': ('copy:source:' if instr == 'copy' else 'contents-of:source:') + ('after-act' if after else 'before-act'),
+                'text': '\n'.join(lines) + '\n', 'instruction': line}
     return mk
 
 
@@ -1041,7 +1241,18 @@ def _subst_root(x, home):
     return x
 
 
+_SRC = lambda n: (('none',), ('plain', [('s', n), ('c', '/src.txt')]))
+_DST = lambda n: (('none',), ('plain', [('s', n), ('c', '/MARK')]))
 E_CORPUS = [
+    # source and destination through ONE symbol: home (must be VALIDATION_ERROR), absolute home via -rel-here, chain; legal act
+    _e2('setup', False, [('P1', 'path', (('opt', 'RHdsCase'), ('plain', [('c', '.')])))], _SRC('P1'), _DST('P1'), 'copy', False),
+    _e2('before-assert', True, [('P1', 'path', (('here',), ('plain', [('c', '.')])))], _SRC('P1'),
+        (('sym', 'P1'), ('plain', [('c', 'MARK')])), 'copy', False),
+    _e2('cleanup', True, [('P1', 'path', (('opt', 'RHdsAct'), ('plain', [('c', '.')]))),
+                          ('P2', 'path', (('sym', 'P1'), ('plain', [('c', '.')])))],
+        (('sym', 'P2'), ('plain', [('c', 'src.txt')])), _DST('P2'), 'copy', True),
+    _e2('assert', True, [('P1', 'path', (('opt', 'RHdsCase'), ('plain', [('c', '.')])))], _SRC('P1'), _DST('P1'), 'file', False),
+    _e2('setup', False, [('P1', 'path', (('opt', 'RAct'), ('plain', [('c', '.')])))], _SRC('P1'), _DST('P1'), 'copy', False),
     # Appendix A6: escapes into the home directory (known finding)
     _e('create', 'setup', False, [], (('opt', 'RAct'), ('plain', [('c', '<HOME>/MARK')])), 'file:destination', False, "file %s = 'M'"),
     _e('create', 'setup', False, [('S1', 'string', ('plain', [('c', '<HOME>/MARK')]))], (('opt', 'RAct'), ('plain', [('s', 'S1')])),
@@ -1109,11 +1320,22 @@ def search(ctx, res):
     """failing-input search (a proof obligation or the correspondence broke): a larger run with fresh random choices;
     every input on which the property predicate fails on the implementation is returned"""
     ctx.c12_search = True
+    # concentrate on the disagreeing inputs: their tables of definitions are reused (70% of the parser / instruction level
+    # cases) with freshly generated arguments and argument pairs (60% of the pairs through one symbol)
+    seeds = []
+    for d in res.disagreements:
+        inp = (d.case or {}).get('input') if isinstance(d.case, dict) else None
+        if inp and inp.get('defs') and inp['defs'] not in seeds and '<ROOT>' not in repr(inp['defs']) \
+                and common.WORK not in repr(inp['defs']):
+            seeds.append(inp['defs'])
+    ctx.c12_seed_defs = seeds[:60] or None
     r2 = common.Result()
     try:
         run(ctx, r2)
     finally:
         ctx.c12_search = False
+        ctx.c12_seed_defs = None
+    res.extra['search_seed_tables'] = len(seeds[:60])
     res.extra['search_evaluations'] = r2.evaluations
     return r2.prop_failures
 
@@ -1135,13 +1357,59 @@ def run(ctx, res):
                     'chain of depth >= 1; distinct := distinct (definitions, argument role, argument)')
         pcases = run_pcases(ctx, res, im)
         run_icases(ctx, res, im, pcases)
+        run_i2cases(ctx, res, im, getattr(ctx, 'c12_seed_defs', None))
         run_ecases(ctx, res, im, scratch)
     finally:
         os.chdir(old)
         shutil.rmtree(scratch, ignore_errors=True)
 
 
+def _from_json_tok(t):
+    return None if t is None else (t[0], [tuple(f) for f in t[1]])
+
+
+def _from_json_arg(a):
+    return (tuple(a[0]), _from_json_tok(a[1]))
+
+
+def _from_json_def(d):
+    if d[1] == 'string':
+        return (d[0], 'string', _from_json_tok(d[2]))
+    if d[1] == 'path':
+        return (d[0], 'path', _from_json_arg(d[2]))
+    return tuple(d)
+
+
 def replay(ctx, payload):
-    case = payload.get('case') or (payload.get('correspondence_disagreements') or [{}])[0].get('case')
-    print(json.dumps(case, indent=1, default=str))
+    """re-run one stored input: the stored description, then implementation (parser level) and model side by side"""
+    case = payload.get('case') or (payload.get('correspondence_disagreements') or [{}])[0].get('case') or {}
+    print(json.dumps({k: v for k, v in case.items() if k != 'input'}, indent=1, default=str))
+    inp = case.get('input')
+    if not inp:
+        return 0
+    defs = [_from_json_def(d) for d in inp['defs']]
+    arg = _from_json_arg(inp['arg'])
+    scratch = tempfile.mkdtemp(prefix='c12-replay-', dir=ctx.work)
+    old = os.getcwd()
+    try:
+        im = Impl(scratch)
+        label, creates, obj, conf = {c[0]: c for c in im.confs}[inp['label']]
+        dfail, a = im.observe(defs, obj, arg)
+        print('implementation now (parser level): definitions %s; argument %s' % (
+            'all accepted' if dfail is None else 'definition #%d: %s' % dfail, list(a)))
+        term = pcase_term(im, defs, conf, creates, arg, dfail, a)
+        outs, raw = common.coq_eval_terms('C12', ['Model.Paths', 'Spec.C12'],
+                                          ['model_run %s' % term, 'check_case %s' % term,
+                                           'spec_meaning (pc_here %s) (pc_defs %s) (c_default (pc_conf %s)) (pc_arg %s)' % ((term,) * 4)],
+                                          tag='replay')
+        if outs:
+            print('model                            :', decode_texts(outs[0]))
+            print('(correspondence, property)       :', outs[1])
+            print('documented meaning (spec_meaning):', decode_texts(outs[2]))
+        else:
+            print(raw[-800:])
+        print('known-finding predicate KF-C12-1 holds for this input:', kf_applies(defs, arg, creates))
+    finally:
+        os.chdir(old)
+        shutil.rmtree(scratch, ignore_errors=True)
     return 0
